@@ -155,7 +155,7 @@ func marker(c colKind, row, ver int) string {
 func (C04) Explore(x *kernel.Explorer, seed uint64) {
 	r := kernel.NewRNG(seed, 0xc04)
 	for i := 0; i < 4 && !x.Expired(); i++ {
-		plan := &kernel.Plan{Prop: "C04", Seed: kernel.Mix(seed, uint64(i)), Swarm: map[string]int64{"idlenth": int64([]int{0, 0, 0, 2, 3}[r.Intn(5)]), "pgreexec": int64(r.Intn(2)),
+		plan := &kernel.Plan{Prop: "C04", Seed: kernel.Mix(seed, uint64(i)), Swarm: map[string]int64{"idlenth": int64([]int{0, 0, 0, 2, 3}[r.Intn(5)]), "pgreexec": int64(r.Intn(2)), "fetch": int64([]int{0, 0, 1, 2}[r.Intn(4)]),
 			"chunk": int64(r.Intn(4)), "colseed": int64(r.Uint32()), "stranger": int64(r.Intn(2)),
 			"mysql": int64(r.Intn(3) / 2), "depeof": int64(r.Intn(2)), "rawmy": int64(r.Intn(2)), "reexec": int64(r.Intn(2)), "longdata": int64(r.Intn(4) / 3), "wyield": int64(r.Intn(2))}}
 		plan.Swarm["ksv2"] = int64(r.Intn(3) / 2)
